@@ -1,7 +1,8 @@
-(* C37 group commit: the proposed repair (variant fx = true: after submit_and_wait only the thread
-   that was elected leader calls take_pending).  In that variant there is at most one leader at a
-   time, the leader's own commit stays in the queue until the leader itself drains it, hence the
-   known class is empty and written_before_ack / failure_reaches_members hold unconditionally. *)
+(* C37 group commit: the protocol as it is since /repo 77fabcc (variant fx = true: after
+   submit_and_wait_role only the thread that was elected leader calls take_pending).  There is at
+   most one leader at a time and the leader's own commit stays in the queue until the leader
+   itself drains it, hence the ghost flag [stolen] is never set and written_before_ack /
+   failure_reaches_members hold for every schedule. *)
 From Coq Require Import ZArith List Bool Arith Lia.
 From TV Require Import Lib.Interleave Model.GroupCommit Proof.GroupCommitStep Proof.GroupCommitSafe Proof.GroupCommitLive.
 Import ListNotations.
@@ -191,7 +192,7 @@ Qed.
 Theorem RInv_run progs sched : RInv (run (step true) sched (init progs)).
 Proof. apply invariant_rule; [apply RInv_init | intros t s s'; apply RInv_step]. Qed.
 
-(* the repaired protocol never leaves the safe class ... *)
+(* no elected leader ever loses its own commit ... *)
 Lemma repair_no_steal_l :
   forall progs sched, stolen (sh (run (step true) sched (init progs))) = false.
 Proof. intros. apply (ri_stolen _ (proj2 (RInv_run progs sched))). Qed.
